@@ -136,10 +136,25 @@ PartAssignViol(s, L, t) ==
 
 (* ---------------- C13: a setter followed by its getter ---------------- *)
 \* ev.attr is the attribute set, ev.given the per-vertex content ids of the values handed in, s/t the shape before/after
+\* consistency of the per-vertex data and of every vertex index (segments / partitions are other properties' subject)
+VertexConsistentViol(t) ==
+    V(Len(t.labels) = t.nv /\ Len(t.vattr) = t.nv /\ t.lens.verts = t.nv, "PerVertexArraysHaveVertexCount")
+    \cup V(\A f \in AttrNames : t.lens[f] \in {0, t.nv}, "AttributeArraysHaveVertexCount")
+    \cup V(t.isStrips \/ Len(t.tris) = t.nt, "TriangleCounterAgrees")
+    \cup V(TrisOK(t.tris, t.nv), "TriangleIndicesValid")
+Companion(attr) == IF attr = "tangents" THEN "bitangents" ELSE IF attr = "bitangents" THEN "tangents" ELSE "none"
 SetGetViol(s, attr, given, t) ==
-    V(t.acid[attr] = given, "GetterReturnsWhatWasSet")
-    \cup V(\A f \in DOMAIN t.acid : f = attr \/ t.acid[f] = s.acid[f], "OtherArraysUntouched")
-    \cup V(t.nv = s.nv /\ (attr = "verts" \/ t.pcid = s.pcid), "VertexCountAndPositionsKept")
-    \cup V(attr = "tris" \/ t.tris = s.tris, "TrianglesUntouched")
-    \cup ShapeConsistentViol(t)
+    IF attr = "vertsN"        \* documented: a different vertex count drops the other vertex data
+    THEN V(t.acid.verts = given /\ t.nv = Len(given), "GetterReturnsWhatWasSet")
+         \cup V(\A f \in AttrNames : t.lens[f] \in {0, t.nv}, "AttributeArraysHaveVertexCount")
+    ELSE IF attr = "tris"
+    THEN V(t.tris = given, "GetterReturnsWhatWasSet") \cup V(t.acid = s.acid /\ t.nv = s.nv, "VertexDataUntouched") \cup VertexConsistentViol(t)
+    ELSE V(t.acid[attr] = given, "GetterReturnsWhatWasSet")
+         \cup V(\A f \in DOMAIN t.acid : f = attr \/ t.acid[f] = s.acid[f]
+                                         \/ (f = Companion(attr) /\ Len(s.acid[f]) = 0 /\ Len(t.acid[f]) = t.nv), "OtherArraysUntouched")
+         \cup V(t.nv = s.nv, "VertexCountKept")
+         \cup V(t.tris = s.tris, "TrianglesUntouched")
+         \cup VertexConsistentViol(t)
+\* after save + reload every getter returns what it returned before
+SameAfterReloadViol(t, r) == V(r.nv = t.nv /\ r.acid = t.acid, "ReloadSameVertexData") \cup V(r.tris = t.tris, "ReloadSameTriangles")
 =============================================================================
